@@ -286,3 +286,152 @@ func TestC10Gap(t *testing.T) {
 	rec := evid.New("C10/gap")
 	pbt.Run(t, "C10", rec, genC10Gap, checkC10Gap)
 }
+
+// ---- gap detection on Logon, with the expected number produced by a history ----
+//
+// TestC10Gap presets the counter store. Here the "next expected" number is what
+// a real earlier logon left behind: a logon, valid inbound traffic (also while
+// the session waits for the answer to its own TestRequest or to its own
+// Logout), an ending (peer's Logout, local Logout answered by the peer, or the
+// connection simply ending), and then a further Logon - on the same connection
+// (acceptor, after a logout handshake) or of a new session on the same stores -
+// whose MsgSeqNum is last+1+delta. Every inbound message of the first logon is
+// valid and numbered consecutively, so the first missing number is last+1.
+
+type C10HistGapCase struct {
+	Script
+	Mode   string     `json:"mode"`   // same-connection | new-session
+	Ending string     `json:"ending"` // peer-logout | local-logout | none
+	Last   int        `json:"last"`   // MsgSeqNum of the last inbound message of the first logon
+	Delta  int        `json:"delta"`  // the further Logon carries last+1+delta
+	Probed bool       `json:"probed"` // the history lets the session send its own TestRequest and answers it
+	Second *rig.InMsg `json:"second"`
+}
+
+func genC10HistGap(t *rapid.T) *C10HistGapCase {
+	cfg := genCfg(t, "")
+	cfg.Approve = "all"
+	c := &C10HistGapCase{}
+	c.Mode = "new-session"
+	if cfg.Role == "acceptor" && rapid.Bool().Draw(t, "sameConn") {
+		c.Mode = "same-connection"
+	}
+	g := &hgen{t: t, cfg: cfg, inSeq: 1}
+	add := func(s rig.Step) { c.Steps = append(c.Steps, s) }
+	add(rig.Step{Op: "in", In: g.goodLogon(0)})
+	hb := g.hb
+	T := int64(tolT(hb))
+	traffic := func(n int, lbl string) {
+		for i := 0; i < n; i++ {
+			add(rig.Step{Op: "advance", Dt: rapid.Int64Range(1, int64(hb)*5e8).Draw(t, lbl+"Dt")})
+			switch rapid.IntRange(0, 3).Draw(t, lbl+"Kind") {
+			case 0:
+				add(rig.Step{Op: "in", In: g.heartbeat("")})
+			case 1:
+				add(rig.Step{Op: "in", In: g.testRequest(fmt.Sprintf("%s%d", lbl, i))})
+			case 2:
+				add(rig.Step{Op: "in", In: g.app()})
+			default:
+				add(rig.Step{Op: "send", ID: fmt.Sprintf("%s-out%d", lbl, i)})
+			}
+		}
+	}
+	traffic(rapid.IntRange(0, 4).Draw(t, "n1"), "a")
+	if rapid.IntRange(0, 2).Draw(t, "probed") == 0 {
+		// the peer falls silent until the session probes it, then answers
+		c.Probed = true
+		add(rig.Step{Op: "advance", Dt: T + T/10 + 1e6})
+		add(rig.Step{Op: "in", In: g.heartbeat("1")})
+		traffic(rapid.IntRange(0, 1).Draw(t, "n2"), "b")
+	}
+	endings := []string{"peer-logout", "local-logout"}
+	if c.Mode == "new-session" {
+		endings = append(endings, "none", "none")
+	}
+	c.Ending = rapid.SampledFrom(endings).Draw(t, "ending")
+	switch c.Ending {
+	case "peer-logout":
+		add(rig.Step{Op: "in", In: g.logout()})
+	case "local-logout":
+		add(rig.Step{Op: "logout"})
+		add(rig.Step{Op: "in", In: g.logout()})
+	}
+	c.Last = g.inSeq - 1
+	c.Delta = rapid.SampledFrom([]int{0, 0, 1, 2, 5, 40}).Draw(t, "delta")
+	g.inSeq = c.Last + 1 + c.Delta
+	c.Second = g.goodLogon(0)
+	c.MaxHB = g.maxHB
+	c.Cfg = cfg
+	return c
+}
+
+func checkC10HistGap(c *C10HistGapCase, rec *evid.Rec) (vs []pbt.Violation) {
+	inner := memory.NewStorage()
+	steps := append([]rig.Step{}, c.Steps...)
+	if c.Mode == "same-connection" {
+		steps = append(steps, rig.Step{Op: "in", In: c.Second})
+	}
+	tr := rig.RunDirect(outerT, c.Cfg, steps, &rig.Hooks{Inner: inner}, c.MaxHB)
+	if tr.Trouble != "" {
+		return []pbt.Violation{pbt.V("harness", "%s", tr.Trouble)}
+	}
+	if tr.RunPanic != "" {
+		return []pbt.Violation{pbt.V("inbound-panic", "handler.Run panicked: %s", tr.RunPanic)}
+	}
+	if !tr.Steps[0].Logged {
+		return []pbt.Violation{pbt.V("harness:not-logged", "the first logon did not succeed")}
+	}
+	for i := range c.Steps {
+		if c.Steps[i].Op == "in" && !tr.Steps[i].Delivered {
+			return []pbt.Violation{pbt.V("harness:not-delivered", "step %d of the first logon was not delivered (the session ended early)", i)}
+		}
+	}
+	res := tr.Steps[len(tr.Steps)-1]
+	if c.Mode == "new-session" {
+		tr2 := rig.RunDirect(outerT, c.Cfg, []rig.Step{{Op: "in", In: c.Second}}, &rig.Hooks{Inner: inner}, c.MaxHB)
+		if tr2.Trouble != "" {
+			return []pbt.Violation{pbt.V("harness", "second session: %s", tr2.Trouble)}
+		}
+		res = tr2.Steps[0]
+	}
+	if !res.Logged {
+		return []pbt.Violation{pbt.V("harness:relogon-refused", "the further Logon was not accepted:%s", showOut(res))}
+	}
+	var reqs []rig.Emitted
+	for _, o := range res.Out {
+		if o.Type == rig.TResendRequest {
+			reqs = append(reqs, o)
+		}
+	}
+	gap := c.Delta > 0
+	what := fmt.Sprintf("%s, first logon ended by %s, last inbound message of it numbered %d, further Logon carries %d", c.Mode, c.Ending, c.Last, c.Last+1+c.Delta)
+	switch {
+	case gap && len(reqs) == 0:
+		vs = append(vs, pbt.V("gap-not-requested", "%s: no ResendRequest sent:%s", what, showOut(res)))
+	case gap:
+		if got, _ := reqs[0].Get(rig.TagBeginSeqNo); got != itoa(c.Last+1) {
+			vs = append(vs, pbt.V("gap-begin-wrong", "%s: ResendRequest starts at %s, the first missing number is %d", what, got, c.Last+1))
+		}
+	case !gap && len(reqs) > 0:
+		vs = append(vs, pbt.V("gap-spurious-request", "%s (no gap) but a ResendRequest was sent: %s", what, reqs[0].String()))
+	}
+	rec.Case(evid.FPs(fmt.Sprintf("%s|%s|%s|%d|%d|%v|%d", c.Cfg.Role, c.Mode, c.Ending, c.Last, c.Delta, c.Probed, len(c.Steps))), true)
+	rec.Hist("histgap:" + c.Mode)
+	rec.Hist("histgap:ending:" + c.Ending)
+	if c.Probed {
+		rec.Hist("histgap:own-testrequest-answered")
+	}
+	if gap {
+		rec.Hist("histgap:gap")
+	}
+	if rec.WantSample() {
+		rec.Sample(map[string]any{"engine": "gap after a history", "role": c.Cfg.Role, "mode": c.Mode, "ending": c.Ending, "last_inbound": c.Last, "further_logon_seq": c.Last + 1 + c.Delta, "history": showScript(&c.Script)})
+	}
+	return vs
+}
+
+func TestC10HistGap(t *testing.T) {
+	outerT = t
+	rec := evid.New("C10/histgap")
+	pbt.Run(t, "C10", rec, genC10HistGap, checkC10HistGap)
+}
